@@ -8,6 +8,7 @@
 #include <iostream>
 #include <deque>
 #include <list>
+#include <memory>
 #include <sstream>
 #include <string>
 #include <vector>
@@ -139,6 +140,29 @@ struct SimpleVec
 };
 template <class U>
 using SrcVec = std::conditional_t<std::is_same_v<U, bool>, SimpleVec<bool>, std::vector<U>>;
+
+// single-pass input iterator whose copies share one position (the behaviour of std::istream_iterator): advancing any copy
+// consumes the items for all of them, so an algorithm has to read the items through the iterator it was given, once
+template <class U>
+struct SharedInput
+{
+    using iterator_category = std::input_iterator_tag;
+    using value_type = U;
+    using difference_type = std::ptrdiff_t;
+    using pointer = const U*;
+    using reference = const U&;
+    std::shared_ptr<const U*> pos;
+    reference operator*() const { return **pos; }
+    pointer operator->() const { return *pos; }
+    SharedInput& operator++()
+    {
+        ++*pos;
+        return *this;
+    }
+    void operator++(int) { ++*pos; }
+    bool operator==(const SharedInput& o) const { return *pos == *o.pos; }
+    bool operator!=(const SharedInput& o) const { return *pos != *o.pos; }
+};
 
 // generated range: forward iterator computing values on the fly, no data()/size()
 template <class U>
@@ -329,6 +353,12 @@ void run(const std::string& form, char kind, const std::vector<std::uint64_t>& i
         g_copies = g_moves = 0;
         ci = detail::CONTIGUOUS_ITERATOR_V<typename std::deque<U>::iterator>;
         with_vector([&](auto& v) { call(v, dq.begin() + static_cast<std::ptrdiff_t>(start)); });
+    }
+    else if (form == "inIt")
+    {  // a single-pass input iterator: every copy of it shares the position, so the items can be read once, in order
+        SharedInput<U> it{std::make_shared<const U*>(src.data())};
+        ci = detail::CONTIGUOUS_ITERATOR_V<SharedInput<U>>;
+        with_vector([&](auto& v) { call(v, it); });
     }
     else if (form == "moveIt")
     {
